@@ -1,8 +1,8 @@
 //! C06 Handler independence: (H) vs (H ∪ O) on the same input and schedule.
 use crate::engine::*;
 use crate::gens::handlers::{mutators, observers};
-use crate::gens::input::{InputOpts, input};
-use crate::gens::sched::schedule;
+use crate::gens::input::{InputOpts, input_in};
+use crate::gens::sched::sched_spec;
 use crate::gens::soup::has_text_mode_or_foreign;
 use crate::obs::*;
 use crate::tape::{Tape, fnv};
@@ -20,7 +20,7 @@ pub struct Case {
 
 pub fn decode(tape: &[u16]) -> Case {
     let mut t = Tape::new(tape);
-    let (input, enc) = input(&mut t, &InputOpts { max_frags: 18, safe_only: true, ..Default::default() });
+    let enc = crate::gens::input::pick_encoding(&mut t, true);
     let mut h = Cfg { encoding: enc, ..Cfg::default() };
     h.strict = t.chance(1, 4);
     h.esi = t.chance(1, 4);
@@ -43,7 +43,9 @@ pub fn decode(tape: &[u16]) -> Case {
         }
         obs.push(o);
     }
-    let cuts = schedule(&mut t, input.len());
+    let spec = sched_spec(&mut t);
+    let input = input_in(&mut t, &InputOpts { max_frags: 18, safe_only: true, ..Default::default() }, enc);
+    let cuts = spec.resolve(input.len());
     Case { input, cuts, h, observers: obs }
 }
 
